@@ -228,6 +228,16 @@ def build_scenarios(prop, tier, rnd):
             cfg = {"kt": ["string", "bytes", "u32"][i % 3], "n": [1, 2, 3][(i // 3) % 3], "sync": mode == "power" or i % 4 != 3}
             env = {"mode": mode, "nested": (i % (3 if q else 2) == 0) and mode == "crash", "cont": mode == "crash"}
             add(ops, cfg, env, chunk=i)
+        if mode == "crash":
+            # long histories: segment ids with two digits (10 follows 9), versions beyond one byte; imaged near the end only
+            for j, n in enumerate([2, 3] if q else [2, 3, 1, 2, 3]):
+                # exactly 10n-1 logged operations (every put is logged), so that the first two operations of the tail
+                # are the last record of segment 9 and the first record of segment 10, on the same keys
+                pre = [{"op": "put", "k": 1 + v % 3, "c": ["A", "B", "E"][(v + j) % 3]} for v in range(10 * n - 1)]
+                tail = [{"op": "put", "k": 1, "c": "A"}, {"op": "delr", "lo": ["I", 1], "hi": ["I", 2]}, {"op": "put", "k": 2, "c": "B"},
+                        {"op": "put", "k": 1, "c": "B"}, {"op": "del", "k": 2}]
+                add(pre + tail, {"kt": ["string", "u32"][j % 2], "n": n, "sync": True},
+                    {"mode": "crash", "nested": False, "cont": True, "from": max(1, len(pre) - 2)}, chunk=j)
         if prop == "C06":
             # a reader obtained before an overwrite / removal / re-put of the same content / reopen keeps
             # streaming the complete original content
@@ -253,9 +263,18 @@ def build_scenarios(prop, tier, rnd):
             for i, ops in enumerate(walks[: (4 if q else 60)]):
                 add(ops, {"kt": ["string_big", "bytes_big"][i % 2], "n": [2, 3][i % 2], "sync": True},
                     {"mode": mode, "nested": False, "cont": True}, chunk=i)
+        if prop == "C20":
+            # "at every instant" includes the instants after a failed filesystem call: the fault histories of C14,
+            # judged here by the well-formedness conjuncts only
+            fx = [[{"op": "put", "k": 1, "c": "A"}, {"op": "put", "k": 2, "c": "B"}, {"op": "put", "k": 3, "c": "A"}, {"op": "put", "k": 1, "c": "B"},
+                   {"op": "ckpt"}, {"op": "put", "k": 2, "c": "A"}, {"op": "del", "k": 1}, {"op": "put", "k": 3, "c": "B"}],
+                  [{"op": "put", "k": 1, "c": "A"}, {"op": "reopen"}, {"op": "put", "k": 2, "c": "B"}, {"op": "delr", "lo": ["U", 0], "hi": ["U", 0]},
+                   {"op": "put", "k": 1, "c": "B"}, {"op": "put", "k": 2, "c": "B"}]]
+            for i, ops in enumerate(fx + (walks[:4] if q else walks[:60])):
+                add(ops, {"kt": ["string", "bytes"][i % 2], "n": [2, 3, 1, 4][i % 4], "sync": True}, {"mode": "fault", "errno": ["EIO", "ENOSPC"][i % 2]}, chunk=i)
         if prop == "C08":
             base = [[{"op": "put", "k": 1, "c": "A"}, {"op": "put", "k": 2, "c": "B"}, {"op": "put", "k": 3, "c": "A"}, {"op": "ckpt"}],
-                    [{"op": "put", "k": 1, "c": "G"}, {"op": "put", "k": 2, "c": "E"}],
+                    [{"op": "put", "k": 1, "c": "G"}, {"op": "put", "k": 2, "c": "E"}, {"op": "put", "k": 3, "c": "C"}, {"op": "put", "k": 4, "c": "B"}],
                     []]
             plants = [
                 [{"kind": "orphan", "c": "C"}],
@@ -264,6 +283,9 @@ def build_scenarios(prop, tier, rnd):
                 [{"kind": "junk", "level": 3, "name": "zz"}, {"kind": "junk", "level": 3, "name": "0123456789abcdef0123456789abcdef0123456789abcdef0123456789ab"}],
                 [{"kind": "junk", "level": 3, "name": "0123456789abcdef0123456789abcdef0123456789abcdef0123456789abcdef"}],
                 [{"kind": "corrupt", "c": "A"}], [{"kind": "resize", "c": "A"}], [{"kind": "delete", "c": "A"}],
+                # every content class on its own: the empty blob (can only grow), the 1-byte, 8 KiB and 70 KB blobs
+                [{"kind": "corrupt", "c": "E"}], [{"kind": "resize", "c": "E"}], [{"kind": "corrupt", "c": "B"}], [{"kind": "resize", "c": "B"}],
+                [{"kind": "corrupt", "c": "G"}], [{"kind": "resize", "c": "G"}], [{"kind": "corrupt", "c": "C"}],
                 [{"kind": "corrupt", "c": "G"}, {"kind": "delete", "c": "E"}, {"kind": "orphan", "c": "C"}],
                 [{"kind": "staging", "name": "x"}, {"kind": "stagingdir"}],
                 [{"kind": "upper", "c": "A"}], [{"kind": "split", "c": "A"}],
